@@ -428,14 +428,17 @@ impl Hypercore {
         let clear_offset = match self.tree.byte_offset(start, None)? {
             Either::Right(value) => value,
             Either::Left(instructions) => {
-                let new_infos = self.storage.read_infos_to_vec(&instructions).await?;
-                infos.extend(new_infos);
-                match self.tree.byte_offset(start, Some(&infos))? {
-                    Either::Right(value) => value,
-                    Either::Left(_) => {
-                        return Err(HypercoreError::InvalidOperation {
-                            context: format!("Could not read offset for index {start} from tree"),
-                        });
+                // Nodes found in the node cache on one round may have been evicted by
+                // the next, so keep reading until everything needed has been collected.
+                let mut instructions = instructions;
+                loop {
+                    let new_infos = self.storage.read_infos_to_vec(&instructions).await?;
+                    infos.extend(new_infos);
+                    match self.tree.byte_offset(start, Some(&infos))? {
+                        Either::Right(value) => break value,
+                        Either::Left(new_instructions) => {
+                            instructions = new_instructions;
+                        }
                     }
                 }
             }
